@@ -5,7 +5,8 @@ CivilFromDays, XSD 1.0 / 1.1 year numbering, timeline stamps <<days, seconds, mi
 spec/CalendarSweep.tla (one TLC state per day of the swept windows: closed form = odometer =
 classical count), spec/Durations.tla (yearMonth = months, dayTime = stamp; order, arithmetic,
 multiplication) and spec/DateChain.tla (VALUE-STATE MACHINE: state = a dateTime/date/time/duration
-value, actions Construct, AddDTD, SubDTD, AddYMD, SubYMD, Diff, Compare, AdjustTZ, AdjustImpl,
+value (gYear / gYearMonth: construction only), actions Construct, AddDTD, SubDTD, AddYMD, SubYMD, Diff,
+Compare, AdjustTZ, AdjustImpl,
 Components, AddTo, MulBy, DurPlus, DurMinus, DurCompare, DurComponents; the laws d + dur - dur = d,
 d1 + (d2 - d1) = d2, comparison = order of instants, adjust preserves the instant, clamping are TLC
 invariants).
@@ -54,8 +55,7 @@ TIERS = {
                 ('10-full-1', dict(Xsd='10', GridName='full', MaxOps=1, LawOps=0, ImplicitTZ=0)),
                 ('11-small-2', dict(Xsd='11', GridName='small', MaxOps=2, LawOps=1, ImplicitTZ=0)),
                 ('10-small-2', dict(Xsd='10', GridName='small', MaxOps=2, LawOps=1, ImplicitTZ=0)),
-                ('11-small-impl', dict(Xsd='11', GridName='small', MaxOps=1, LawOps=0, ImplicitTZ=330)),
-                ('10-small-impl', dict(Xsd='10', GridName='small', MaxOps=1, LawOps=0, ImplicitTZ=330))],
+                ('11-small-impl', dict(Xsd='11', GridName='small', MaxOps=1, LawOps=0, ImplicitTZ=330))],
         tlc_workers=8, parallel=3),
 }
 
@@ -85,6 +85,10 @@ def render_val(v) -> str:
     tm = '%02d:%02d:%02d%s' % (v['h'], v['mi'], v['s'], lex_frac(v['us']))
     if k == 'time':
         return tm + lex_tz(v['tz'])
+    if k == 'gYear':
+        return lex_year(v['y']) + lex_tz(v['tz'])
+    if k == 'gYearMonth':
+        return '%s-%02d' % (lex_year(v['y']), v['mo']) + lex_tz(v['tz'])
     d = '%s-%02d-%02d' % (lex_year(v['y']), v['mo'], v['d'])
     if k == 'date':
         return d + lex_tz(v['tz'])
@@ -117,7 +121,7 @@ def render_rawdur(r) -> str:
 
 
 XS = {'dateTime': 'xs:dateTime', 'date': 'xs:date', 'time': 'xs:time', 'dtd': 'xs:dayTimeDuration',
-      'ymd': 'xs:yearMonthDuration'}
+      'ymd': 'xs:yearMonthDuration', 'gYear': 'xs:gYear', 'gYearMonth': 'xs:gYearMonth'}
 
 
 def xp_lit(kind: str, text: str) -> str:
@@ -136,6 +140,9 @@ def xp_tz(tz: int) -> str:
 _val_re = re.compile(r'^(?:(?P<y>-?\d{4,})-(?P<mo>\d\d)-(?P<d>\d\d))?T?(?:(?P<h>\d\d):(?P<mi>\d\d):(?P<s>\d\d)(?:\.(?P<f>\d+))?)?'
                      r'(?P<tz>Z|[+-]\d\d:\d\d)?$')
 KIND_OF = {'DateTime': 'dateTime', 'DateTime10': 'dateTime', 'Date': 'date', 'Date10': 'date', 'Time': 'time'}
+GKIND_OF = {'GregorianYear': 'gYear', 'GregorianYear10': 'gYear', 'GregorianYearMonth': 'gYearMonth',
+            'GregorianYearMonth10': 'gYearMonth'}
+_g_re = re.compile(r'^(?P<y>-?\d{4,})(?:-(?P<mo>\d\d))?(?P<tz>Z|[+-]\d\d:\d\d)?$')
 DUR_OF = {'DayTimeDuration': 'dtd', 'YearMonthDuration': 'ymd'}
 
 
@@ -154,6 +161,14 @@ def project(r):
     if isinstance(r, AbstractDateTime):
         name = type(r).__name__
         text = str(r)
+        if name in GKIND_OF:
+            m = _g_re.match(text)
+            if not m:
+                return ('other', name, text)
+            tz = m.group('tz')
+            tzv = NOTZ if tz is None else 0 if tz == 'Z' else \
+                (int(tz[1:3]) * 60 + int(tz[4:6])) * (-1 if tz[0] == '-' else 1)
+            return ('val', GKIND_OF[name], int(m.group('y')), int(m.group('mo') or 0), 0, 0, 0, 0, 0, tzv, text)
         m = _val_re.match(text)
         if not m or name not in KIND_OF:
             return ('other', name, text)
@@ -266,7 +281,9 @@ def classes():
     global _cls
     if _cls is None:
         from elementpath import datatypes as dt
-        _cls = {('dateTime', '10'): dt.DateTime10, ('dateTime', '11'): dt.DateTime, ('date', '10'): dt.Date10,
+        _cls = {('gYear', '10'): dt.GregorianYear10, ('gYear', '11'): dt.GregorianYear,
+                ('gYearMonth', '10'): dt.GregorianYearMonth10, ('gYearMonth', '11'): dt.GregorianYearMonth,
+                ('dateTime', '10'): dt.DateTime10, ('dateTime', '11'): dt.DateTime, ('date', '10'): dt.Date10,
                 ('date', '11'): dt.Date, ('time', '10'): dt.Time, ('time', '11'): dt.Time,
                 'dtd': dt.DayTimeDuration, 'ymd': dt.YearMonthDuration}
     return _cls
@@ -365,7 +382,7 @@ def xp_cases(stext, action, args, src, dst, cfg):
 
 def expect(dst):
     st = dst['st']
-    if st == 'val':
+    if st in ('val', 'gval'):
         return exp_val(dst)
     if st == 'dur':
         return exp_dur(dst)
@@ -449,7 +466,7 @@ def astro(cfg, ly):
 
 
 def has_date(v):
-    return v is not None and v.get('st') in ('val', 'raw') and v['k'] != 'time'
+    return v is not None and v.get('st') in ('val', 'raw', 'gval') and v['k'] != 'time'
 
 
 def era(cfg, v):
@@ -495,14 +512,14 @@ def dur_class(r):
 
 def features(cfg, binding, spelling, action, args, src, dst, out, diff, style='lit'):
     isv = src['st'] in ('val', 'raw')
-    timed = isv and src['k'] != 'date'
+    timed = isv and src['k'] in ('dateTime', 'time')
     f = dict(op=action, binding=binding, spelling=spelling, style=style, xsd=cfg['xsd'], kind=src.get('k'),
              implicit_tz='utc' if cfg['implicit'] == 0 else 'other', outcome=out, diff=diff,
              era_src=era(cfg, src), leap_src=leap(cfg, src), md_src=md(src), tz_src=tz_class(src) if isv else '-',
              time_src=('-' if not timed else 'h24' if src['h'] == 24 else
                        'zero' if (src['h'], src['mi'], src['s'], src['us']) == (0, 0, 0, 0) else 'nonzero'),
              frac_src=('-' if not timed else 'none' if not src['us'] else 'lead0' if src['us'] < 100000 else 'full'),
-             era_dst=era(cfg, dst) if dst['st'] == 'val' else dst['st'],
+             era_dst=era(cfg, dst) if dst['st'] in ('val', 'gval') else dst['st'],
              leap_dst=leap(cfg, dst), md_dst=md(dst),
              time_dst=('-' if dst['st'] != 'val' or dst['k'] == 'date' else
                        'zero' if (dst['h'], dst['mi'], dst['s'], dst['us']) == (0, 0, 0, 0) else 'nonzero'),
@@ -590,12 +607,15 @@ def second_oracle(action, args, src, dst, cfg):
         got = tuple(dst[f] for f in FIELDS)
     else:
         return None
+    cfg['oracle_n'] = cfg.get('oracle_n', 0) + 1
     return None if want == got else f'{action}{args} on {render_val(src)}: spec {got} python {want}'
 
 
 # ---------------------------------------------------------------------------------------
 # replay of one chunk of edges (runs in a forked worker; EDGES/CFGS are inherited globals)
 
+KNOWN: list = []      # the known-finding patterns of this property (matched in the workers: a thorough run
+                      # meets ~10^6 known failures, only unmatched ones travel back to the parent)
 EDGES: dict = {}      # model name -> list of (src, action, args, dst, pred) ; pred = (psrc, paction, pargs) | None
 CFGS: dict = {}
 
@@ -700,6 +720,7 @@ def worker(job):
     core.setup_repo_path()
     cfg = CFGS[name]
     cfg['lit_ok'] = {}
+    cfg['oracle_n'] = 0
     fails, oracle, stats = [], [], {}
     n_eval = 0
     for (src, action, args, dst, pred) in EDGES[name][lo:hi]:
@@ -707,7 +728,17 @@ def worker(job):
         if msg:
             oracle.append(msg)
         n_eval += replay_edge(cfg, src, action, args, dst, pred, fails, stats)
-    return n_eval, fails, oracle, stats
+    stats['edges_cross_checked_with_python_datetime'] = cfg['oracle_n']
+    unmatched, hits = [], {}
+    for f in fails:
+        feat = core.jsonable(f[0])
+        for idx, k in enumerate(KNOWN):
+            if core.match_pattern(k['fingerprint'], feat):
+                hits[idx] = hits.get(idx, 0) + 1
+                break
+        else:
+            unmatched.append(f)
+    return n_eval, unmatched, oracle, stats, hits
 
 
 def replay(rec: dict) -> int:
@@ -887,7 +918,6 @@ def run(chk: core.Check) -> None:
     # ---- calendar sweep ---------------------------------------------------------------------
     r, n_days, n_ce = mres['sweep']
     chk.model(f'CalendarSweep/{conf["sweep"]}', r)
-    chk.add('transitions', n_days)       # one law instance (round trip + odometer step) per swept day
     chk.coverage['sweep_days'] = n_days
     chk.coverage['sweep_days_cross_checked_with_python'] = n_ce
     print(f'  sweep: days={n_days} cross-checked={n_ce} tlc={r.wall_s:.1f}s', flush=True)
@@ -909,11 +939,14 @@ def run(chk: core.Check) -> None:
         print(f'  {name}: states={r.distinct} edges={len(edges)} tlc={r.wall_s:.1f}s', flush=True)
     # interleave the models so that the pool stays busy
     jobs.sort(key=lambda j: (j[1], j[0]))
+    KNOWN[:] = chk.known
     res = core.pool_map(worker, jobs)
     oracle_msgs = []
     stats: dict = {}
-    for n_eval, fails, oracle, st in res:
+    for n_eval, fails, oracle, st, hits in res:
         chk.add('evaluations', n_eval)
+        for idx, cnt in hits.items():
+            chk.known_hits[idx] = chk.known_hits.get(idx, 0) + cnt
         oracle_msgs += oracle
         for k, v in st.items():
             stats[k] = stats.get(k, 0) + v
@@ -921,6 +954,7 @@ def run(chk: core.Check) -> None:
             chk.fail(feat, case, exp, obs, what=what)
     if oracle_msgs:
         raise tla.MachineryError(f'spec/DateChain disagrees with python datetime: {oracle_msgs[:5]}')
+    chk.coverage['edges_cross_checked_with_python_datetime'] = stats.pop('edges_cross_checked_with_python_datetime', 0)
     chk.coverage['unreached'] = stats
     chk.coverage['exhaustive'] = True
     chk.coverage['rule'] = ('every day of the swept windows is one TLC state of CalendarSweep (closed form = odometer = classical count, '
